@@ -48,6 +48,11 @@ func runC12(r *R) {
 	r.Sample(sp.describe())
 	// one run in four: another pool of the same engine runs beside the observed one (ids are numbered per pool)
 	sp.ExtraPool = w.Draw(4) == 0
+	// one run in five: a slow warm-up (the startup profile begins when instances can be started, not before)
+	if w.Draw(5) == 0 {
+		sp.WarmUp = []time.Duration{300 * time.Millisecond, 2 * time.Second, 7 * time.Second}[w.Draw(3)]
+		r.Note("slow-warm-up")
+	}
 	if sp.ExtraPool {
 		r.Note("second-pool-in-the-engine")
 	}
